@@ -16,10 +16,10 @@ Definition case32 (pf al me : Z) (n : Z) (m : list Z) : list Z :=
     (run_fresh F32 (profile_of_Z pf) (algo_of_Z al) (method_of_Z me)
                (map f32_of_bits m) (Z.to_N n)).
 
-(* Reuse histories: a list of `_with` calls sharing one LinkageState and
-   Dendrogram.  A panicking call leaves the model's state as it was (the real
-   state is then arbitrary; by Props C08 the next result does not depend on
-   it).  Each call's rendering is followed by the separator -1. *)
+(* Reuse histories (Model/History.v): each call's rendering is followed by
+   the separator -1. *)
+Require Import KV.Model.History.
+
 Section Hist.
 Set Implicit Arguments.
 Variable T : Type.
@@ -27,20 +27,64 @@ Variable F : fops T.
 Variable of_bits : Z -> T.
 Variable to_bits : T -> Z.
 
-Definition hist_step (pf : profile) (acc : lstate T * dend T * list Z) (c : Z * Z * Z * list Z)
-  : lstate T * dend T * list Z :=
-  let '(s, d, out) := acc in
-  let '(al, me, n, m) := c in
-  let r := run_with F pf (algo_of_Z al) (method_of_Z me) s d (map of_bits m) (Z.to_N n) in
-  let out' := out ++ render_run to_bits r ++ [-1] in
+Definition render_out (r : res (dend T * list T)) : list Z :=
   match r with
-  | Ok (s', d', _) => (s', d', out')
-  | _ => (s, d, out')
+  | Ok (d, m) => 0 :: render_dend to_bits d ++ (zn (length m) :: map to_bits m)
+  | Panic k => [1; panic_code k]
+  | OutOfFuel => [2]
   end.
 
+Definition call_of (c : Z * Z * Z * list Z) : call T :=
+  let '(al, me, n, m) := c in (algo_of_Z al, method_of_Z me, Z.to_N n, map of_bits m).
+
 Definition hist (pf : profile) (calls : list (Z * Z * Z * list Z)) : list Z :=
-  let '(_, _, out) := fold_left (hist_step pf) calls (st_new T, d_new T 0, []) in out.
+  flat_map (fun o => render_out o ++ [-1])
+           (history_outputs F pf (map call_of calls) (st_new T) (d_new T 0)).
 End Hist.
 
 Definition hist64 (pf : Z) calls := hist F64 f64_of_bits f64_to_bits (profile_of_Z pf) calls.
 Definition hist32 (pf : Z) calls := hist F32 f32_of_bits f32_to_bits (profile_of_Z pf) calls.
+
+(* Dendrogram container operation sequences (Model/DendOps.v). *)
+Require Import KV.Model.DendOps.
+
+Section DendRun.
+Set Implicit Arguments.
+Variable T : Type.
+Variable F : fops T.
+Variable of_bits : Z -> T.
+Variable to_bits : T -> Z.
+
+Definition zb (z : Z) : bool := negb (z =? 0).
+
+Definition dop_of (l : list Z) : dop T :=
+  match l with
+  | [0; r; n] => ONew T (zb r) (Z.to_nat n)
+  | [1; r; n] => OReset T (zb r) (Z.to_nat n)
+  | [2; r; c1; c2; x; sz] => OPush (zb r) (Z.to_nat c1) (Z.to_nat c2) (of_bits x) (Z.to_nat sz)
+  | [3; r; i] => OGet T (zb r) (Z.to_nat i)
+  | [4; r; i; c1; c2] => OSetClusters T (zb r) (Z.to_nat i) (Z.to_nat c1) (Z.to_nat c2)
+  | [5; r; i; x] => OSetDis (zb r) (Z.to_nat i) (of_bits x)
+  | [6; r; l] => OClusterSize T (zb r) (Z.to_nat l)
+  | [7; r] => OLen T (zb r)
+  | [8; r] => OObs T (zb r)
+  | [9; e] => OEqEps (of_bits e)
+  | _ => OLen T false
+  end.
+
+Definition render_dout (o : dout T) : list Z :=
+  match o with
+  | DUnit _ => [0]
+  | DPanic _ k => [1; panic_code k]
+  | DStep s => 2 :: render_step to_bits s
+  | DNat _ n => [3; zn n]
+  | DBool _ b => [4; if b then 1 else 0]
+  end.
+
+Definition dendops (ops : list (list Z)) : list Z :=
+  flat_map (fun o => render_dout o ++ [-1])
+    (snd (drun (f_eqb F) (f_ltb F) (f_sub F) (f_abs F) (map dop_of ops))).
+End DendRun.
+
+Definition dend64 ops := dendops F64 f64_of_bits f64_to_bits ops.
+Definition dend32 ops := dendops F32 f32_of_bits f32_to_bits ops.
